@@ -31,6 +31,7 @@ template <class S, unsigned EXTRA = 0, unsigned LESS = 0> struct GcSetAd {
   bool unl(int, int) { return false; }
   size_t size() { return s.size(); } bool empty() { return s.empty(); } void clear() { s.clear(); }
   template <class F> void traverse(F f) { TravHelp<(LESS & C_TRAV) == 0>::go(s, f); }
+  template <class F> void iterate(bool, F) {} template <class F, class R, class I> void iterate(bool, F, R, I) {}
   bool consistent() { return true; }
 };
 // G2: the same containers over RCU: extract -> exempt_ptr (outside the lock), get -> raw_ptr / pointer (inside the lock)
@@ -45,7 +46,10 @@ template <class S, class RCU, unsigned EXTRA = 0, unsigned LESS = 0, bool EXT_LO
 template <class S, unsigned EXTRA = 0, unsigned LESS = 0> struct IterSetAd : public GcSetAd<S, EXTRA, LESS> {
   typedef GcSetAd<S, EXTRA, LESS> base; using base::s; IterSetAd(S& s_) : base(s_) {}
   // documented: emptiness of the iterable family is decided by the item counter, so empty() is meaningful only with a real counter
-  unsigned caps() const { return base::caps() | (base::size_cap() ? 0u : (unsigned)C_NOEMPTY); }
+  unsigned caps() const { return base::caps() | (base::size_cap() ? 0u : (unsigned)C_NOEMPTY) | C_ITER; }
+  // f(key, id, element address) returns true to stop at this element; if it stops and on_erase is given, erase_at( it ) is called
+  template <class F> void iterate(bool, F f) { for (auto it = s.begin(); it != s.end(); ++it) if (f(it->key, it->id, &*it)) break; }
+  template <class F, class R, class I> void iterate(bool, F f, R on_result, I on_inv) { for (auto it = s.begin(); it != s.end(); ++it) if (f(it->key, it->id, &*it)) { on_inv(it->id); on_result(s.erase_at(it)); break; } }
   int upd(int k, int id, bool allow, int& seen) { auto r = s.update(Item(k, id), [&](Item&, Item* old) { if (old) seen = old->id; }, allow); return r.first ? (r.second ? 3 : 2) : 0; }
 };
 // G7: insert-only nogc variants
@@ -57,6 +61,7 @@ template <class S> struct NogcSetAd {
   bool insf(int, int, int&) { return false; }
   int upd(int k, int id, bool allow, int& seen) { bool had = s.contains(k) != s.end(); auto r = s.update(Item(k, id), allow); if (r.first == s.end()) return 0; if (!r.second) seen = r.first->id; (void)had; return r.second ? 3 : 2; }
   bool era(int) { return false; } bool eraf(int, int&) { return false; } bool ext(int, int&) { return false; } bool get(int, int&) { return false; } bool unl(int, int) { return false; }
+  template <class F> void iterate(bool, F) {} template <class F, class R, class I> void iterate(bool, F, R, I) {}
   bool find(int k) { return s.contains(k) != s.end(); }
   bool findf(int k, int& seen) { auto it = s.contains(k); if (it == s.end()) return false; seen = it->id; return true; }
   bool extmin(int&) { return false; } bool extmax(int&) { return false; }
@@ -73,7 +78,13 @@ struct fitem_accessor { size_t const& operator()(FItem const& v) const { return 
 template <class S, bool RCUV = false, class RCU = void> struct FeldmanAd {
   S& s; FeldmanAd(S& s_) : s(s_) {}
   static size_t hf(int k) { return item_hash::hash_of(k); }
-  unsigned caps() const { return C_INSF | C_UPD | C_ERA | C_ERAF | C_EXT | C_GET | C_FINDF | C_EMP | C_TRAV | C_CLEAR | (std::is_same<typename S::item_counter, cds::atomicity::empty_item_counter>::value ? 0u : (unsigned)C_SIZE); }
+  unsigned caps() const { return C_INSF | C_UPD | C_ERA | C_ERAF | C_EXT | C_GET | C_FINDF | C_EMP | C_TRAV | C_CLEAR | (RCUV ? 0u : (unsigned)(C_ITER | C_RITER)) | (std::is_same<typename S::item_counter, cds::atomicity::empty_item_counter>::value ? 0u : (unsigned)C_SIZE); }
+  template <bool R, class F> typename std::enable_if<!R>::type iter_impl(bool rev, F f) { if (rev) { for (auto it = s.rbegin(); it != s.rend(); ++it) if (f(it->key, it->id, &*it)) break; } else { for (auto it = s.begin(); it != s.end(); ++it) if (f(it->key, it->id, &*it)) break; } }
+  template <bool R, class F> typename std::enable_if<R>::type iter_impl(bool, F) {}
+  template <class F> void iterate(bool rev, F f) { iter_impl<RCUV>(rev, f); if (getenv("FH_DEBUG")) { fprintf(stderr, "[dbg t%d size=%zu again:", t_id, s.size()); iter_impl<RCUV>(rev, [](int k, int, const void*) { fprintf(stderr, " %d", k); return false; }); fprintf(stderr, "]\n"); } }
+  template <bool R, class F, class Rs, class I> typename std::enable_if<!R>::type iter_erase_impl(F f, Rs on_result, I on_inv) { for (auto it = s.begin(); it != s.end(); ++it) if (f(it->key, it->id, &*it)) { on_inv(it->id); on_result(s.erase_at(it)); break; } }
+  template <bool R, class F, class Rs, class I> typename std::enable_if<R>::type iter_erase_impl(F, Rs, I) {}
+  template <class F, class Rs, class I> void iterate(bool, F f, Rs on_result, I on_inv) { iter_erase_impl<RCUV>(f, on_result, on_inv); }
   bool ins(int k, int id) { return s.insert(FItem(hf(k), k, id)); }
   bool emp(int k, int id) { return s.emplace(hf(k), k, id); }
   bool insf(int k, int id, int& calls) { return s.insert(FItem(hf(k), k, id), [&](FItem&) { ++calls; }); }
@@ -115,6 +126,7 @@ template <class S> struct BronsonAd {
   bool unl(int, int) { return false; }
   size_t size() { return s.size(); } bool empty() { return s.empty(); } void clear() { s.clear(); }
   template <class F> void traverse(F) {}
+  template <class F> void iterate(bool, F) {} template <class F, class R, class I> void iterate(bool, F, R, I) {}
   bool consistent() { return s.check_consistency(); }
 };
 }
@@ -134,6 +146,7 @@ template <class S, unsigned LESS = 0> struct LockSetAd {
   bool findf(int k, int& seen) { return s.find(k, [&](Item& it, int const&) { seen = it.id; }); }
   size_t size() { return s.size(); } bool empty() { return s.empty(); } void clear() { s.clear(); }
   template <class F> void traverse(F) {}
+  template <class F> void iterate(bool, F) {} template <class F, class R, class I> void iterate(bool, F, R, I) {}
   bool consistent() { return true; }
 };
 }
